@@ -781,6 +781,9 @@ def Expr.nfInv : Expr → Prop
   -- function without trivia of its own; an argument on its own line: no blank-line marker in front
   | .app n x g _ b a => n.nfInv ∧ x.nfInv ∧ n.before = [] ∧
       ((Layout.fromGap g).onNewline = true → leadE x.before = 0) ∧ Alt b ∧ Alt a
+  -- `with` / `assert`: outside the spacing theorem so far (`File.basic`)
+  | .wth .. => False
+  | .asrt .. => False
 def allNfInv : List Expr → Prop
   | [] => True
   | e :: rest => e.nfInv ∧ allNfInv rest
@@ -799,6 +802,8 @@ def Expr.inlineClean : Expr → Prop
   | .binding _ v _ _ _ => v.inlineClean
   | .paren v lg _ _ _ _ _ => ((Layout.fromGap lg).onNewline = false → v.before = []) ∧ v.inlineClean
   | .app n x g _ _ _ => ((Layout.fromGap g).onNewline = false → x.before = []) ∧ n.inlineClean ∧ x.inlineClean
+  | .wth .. => False
+  | .asrt .. => False
 def allInlineClean : List Expr → Prop
   | [] => True
   | e :: rest => e.inlineClean ∧ allInlineClean rest
@@ -1246,6 +1251,8 @@ theorem rebuildAP_summ : (e : Expr) → e.ok → e.mlSafe → e.nfInv → e.inli
     obtain ⟨la, fx, has, hsep⟩ := harg
     simp only [summ_append, indentP_summ, hfns, has]
     simp only [Summ.comb, List.nil_append, List.append_nil, Bool.true_and, Bool.and_true, hsep]
+  | .wth .., _, _, hinv, _, _, _, _ => hinv.elim
+  | .asrt .., _, _, hinv, _, _, _, _ => hinv.elim
 theorem joinNl_summ : (es : List Expr) → allOk es → allMlSafe es → allNfInv es → allInlineClean es → nonLastClosed es → es ≠ [] → ∀ (i : Nat),
     ∃ l f t, summ (joinP [.ws ['\n']] (rebuildAllP es i false)) = .lexy l f true t ∧ f ≠ semi ∧ VLead l ∧ TrailT t
   | [], _, _, _, _, _, h, _ => absurd rfl h
@@ -1283,6 +1290,8 @@ theorem previewP_summ : (e : Expr) → e.ok → e.mlSafe → e.nfInv → e.inlin
   | .binding .., _, _, _, _, i, p, h => by simp [Expr.previewP] at h
   | .paren .., _, _, _, _, i, p, h => by simp [Expr.previewP] at h
   | .app .., _, _, _, _, i, p, h => by simp [Expr.previewP] at h
+  | .wth .., _, _, _, _, i, p, h => by simp [Expr.previewP] at h
+  | .asrt .., _, _, _, _, i, p, h => by simp [Expr.previewP] at h
   | .list value ml inner before after, hok, hml, hinv, hclean, i, p, h => by
     have hvm := hml.1
     obtain ⟨hv, hin, hb, ha⟩ := hok
